@@ -96,7 +96,9 @@ def _downgrade_outside_idioms(rep: Report) -> None:
         general = []
         for w in whiles:
             t = w.test
-            peel = (isinstance(t, ast.Call) and isinstance(t.func, ast.Name) and t.func.id == "isinstance" and len(w.body) == 1 and isinstance(w.body[0], ast.Assign))
+            peel = (isinstance(t, ast.Call) and isinstance(t.func, ast.Name) and t.func.id == "isinstance" and t.args and isinstance(t.args[0], ast.Name)
+                    and any(isinstance(b_, ast.Assign) and isinstance(b_.value, ast.Attribute) and isinstance(b_.value.value, ast.Name)
+                            and b_.value.value.id == t.args[0].id for b_ in w.body))
             if not peel:
                 general.append(w)
         if general:
